@@ -20,7 +20,7 @@ RULE = (
     "; pass 5: library operations (exact / heteroskedastic / variational+fantasy / CIQ / cylindrical / lazy-kernel) built before, inside, or used after a user's block for every settings class"
     '; pass 6: per-dtype settings given exactly 0'
 )
-REQUIRED = ["library_call_keeps_block_values", "enter_matches_model", "exit_matches_model", "end_equals_defaults", "inner_value_visible", "reentered_object_end_equals_defaults", "reentered_object_inner_value_visible"]
+REQUIRED = ["other_threads_see_the_same_values", "library_call_keeps_block_values", "enter_matches_model", "exit_matches_model", "end_equals_defaults", "inner_value_visible", "reentered_object_end_equals_defaults", "reentered_object_inner_value_visible"]
 ASSUMPTIONS = [
     "blocks are written `with cls(args):` (object constructed at entry); for ONE pre-constructed object entered while already active, the value visible inside the innermost entry and the defaults after the outermost exit are verdicts, the value visible between an inner exit and the outer exit is not (the object saves a single previous value)",
     "visible state = on()/value()/value(dtype)/num_probe_vectors() of every exported class, sampled after every enter/exit event",
@@ -415,6 +415,11 @@ def cases(tier, seed):
             for ai in idxs:
                 for when in ("built_before_used_inside", "inside", "built_inside_used_after"):
                     yield {"gen": "library-call", "op": op, "cls": n, "arg": ai, "prog": [N(n, ai)], "when": when}
+    # 4c. the flags and values are GLOBAL (process-wide): code that runs in another thread during the block (data-loader workers,
+    #     the autograd engine's threads running custom backward passes) sees the block's values, and the defaults afterwards
+    for n in names:
+        for ai in range(min(2, len(ch[n]))):
+            yield {"gen": "threads", "cls": n, "arg": ai, "prog": [N(n, ai)]}
     # 5. informational: re-entered, pre-constructed context objects (outside the quantifier)
     for n in names:
         yield {"prog": [N(n, 0)], "gen": "reenter-info"}
@@ -607,6 +612,58 @@ def run_case(case, ctx):
     ctx.expect("start_equals_defaults", snapshot() == _S["defaults"], "harness reset failed")
     if case["gen"] == "library-call":
         return _library_call(case, ctx)
+    if case["gen"] == "threads":
+        import threading
+
+        name = case["cls"]
+        c = _S["bycls"][name]
+        kw = _dec(_S["choices"][name][case["arg"]])
+        seen = {}
+
+        def worker(tag):
+            seen[tag] = snapshot()
+
+        def in_thread(tag):
+            t_ = threading.Thread(target=worker, args=(tag,))
+            t_.start()
+            t_.join(30)
+
+        try:
+            obj = c(kw["value"]) if _S["kinds"][name] == "value" else c(**kw)
+            with obj:
+                here = snapshot()
+                in_thread("inside")
+                # a thread that was already running when the block was entered (a pool worker): started before, reads inside
+                go, done = threading.Event(), threading.Event()
+
+                def pooled():
+                    go.wait(30)
+                    seen["pooled_inside"] = snapshot()
+                    done.set()
+
+            tp = threading.Thread(target=pooled)
+            tp.start()
+            with (c(kw["value"]) if _S["kinds"][name] == "value" else c(**kw)):
+                here2 = snapshot()
+                go.set()
+                done.wait(30)
+            tp.join(30)
+            in_thread("after")
+        except ValueError as e:
+            if "not supported" not in str(e):
+                raise
+            ctx.reject("argument not supported")
+            return
+        for tag, ref in (("inside", here), ("pooled_inside", here2), ("after", _S["defaults"])):
+            got = seen.get(tag)
+            bad = [k for k in ref if got is None or got.get(k) != ref[k]]
+            ctx.expect("other_threads_see_the_same_values", not bad, f"{name}({_enc(kw)}): a worker thread ({tag}) sees " + "; ".join(f"{k}={None if got is None else got.get(k)!r} (this thread: {ref[k]!r})" for k in bad[:4]), fields=bad, owners=sorted({_owner(k) for k in bad}), where=tag)
+        end = snapshot()
+        bad = [k for k in end if end[k] != _S["defaults"][k]]
+        ctx.expect("end_equals_defaults", not bad, "after the threaded program: " + "; ".join(f"{k}={end[k]!r}" for k in bad[:4]), fields=bad, owners=sorted({_owner(k) for k in bad}))
+        ctx.cell(("threads", name, case["arg"]), nontrivial=here != _S["defaults"])
+        _reset()
+        return
     if case["gen"] == "reenter-info":
         name = case["prog"][0]["cls"]
         c = _S["bycls"][name]
